@@ -5,6 +5,7 @@
 package c11
 
 import (
+	"runtime"
 	"testing"
 
 	"pgregory.net/rapid"
@@ -50,6 +51,7 @@ func draw(foreign bool) func(t *rapid.T) *pbt.Case {
 			sl := leaves[rapid.IntRange(0, len(leaves)-1).Draw(t, "errnopos")]
 			*sl = &gen.Spec{K: "sentinel", S: []string{rapid.SampledFrom(errnoSentinels).Draw(t, "errno")}}
 			c.SetInt("foreign", 1)
+			c.SetStr("platform", rapid.SampledFrom([]string{"plan9:mips", runtime.GOOS + ":otherarch", "otheros:" + runtime.GOARCH}).Draw(t, "platform"))
 		}
 		return c
 	}
@@ -70,7 +72,11 @@ func check(c *pbt.Case, r *pbt.R) {
 	for i := 1; i <= c.Int("hops"); i++ {
 		if foreign && i == 1 {
 			enc := wire.Unmarshal(wire.Encode(e))
-			if wire.ForeignPlatform(&enc) == 0 {
+			plat := c.S["platform"]
+			if plat == "" {
+				plat = "plan9:mips"
+			}
+			if wire.ForeignPlatformAs(&enc, plat) == 0 {
 				// The errno sits behind a layer that does not transfer its
 				// payload structurally (e.g. an error-typed format argument).
 				r.Count("foreign", "errno not on the wire")
@@ -104,6 +110,9 @@ func check(c *pbt.Case, r *pbt.R) {
 	r.St.CountN("annotation kinds", na)
 	r.St.CountN("hops", c.Int("hops"))
 	r.Count("alphabet", c.S["alphabet"])
+	if foreign {
+		r.Count("foreign platform", c.S["platform"])
+	}
 	for k := range kinds {
 		r.Count("kinds", k)
 	}
